@@ -59,6 +59,12 @@ def build(kind, src, srcs2, dask):
         out = s.accumulate(add, with_state=True)
     elif kind == "map+acc":
         out = s.map(inc).accumulate(add)
+    elif kind == "acc+partition":
+        out = s.accumulate(add).partition(2)
+    elif kind == "acc+window":
+        out = s.accumulate(add).sliding_window(2, return_partial=False)
+    elif kind == "acc-ws+partition":
+        out = s.accumulate(add, with_state=True).partition(2)
     elif kind == "map+buffer":
         out = s.map(inc).buffer(2)
     elif kind == "partition":
@@ -110,7 +116,18 @@ def _body(shard, *choices):
         out = build(kind, src, src2, True)
         got = []
         out.sink(got.append)
-        cbs, refs = [], {}
+
+        class CbLog(list):
+            """callback log that also remembers how many results had reached the sink"""
+            def __init__(self, sinklist):
+                list.__init__(self)
+                self.sinklist = sinklist
+                self.at = {}
+
+            def append(self, key):
+                list.append(self, key)
+                self.at.setdefault(key, len(self.sinklist))
+        cbs, refs = CbLog(got), {}
         items = [[10 + i for i in range(n)], [20 + i for i in range(n)]]
         pos = [0, 0]
         last = [None, None]
@@ -180,7 +197,7 @@ def _body(shard, *choices):
         lout = build(kind, lsrc, lsrc2, False)
         exp = []
         lout.sink(exp.append)
-        lcbs, lrefs = [], {}
+        lcbs, lrefs = CbLog(exp), {}
         lpos = [0, 0]
         world.loop.run_ready()
         for p in order:
@@ -221,6 +238,9 @@ def _body(shard, *choices):
                 vd.add("count-rises-after-zero@%s" % kind)
             if cbs.count(key) != lcbs.count(key):
                 vd.add("completion-callback-count-differs@%s" % kind)
+            if key in cbs.at and key in lcbs.at and cbs.at[key] < lcbs.at[key]:
+                # the Dask pipeline signalled completion after fewer results had reached the sink
+                vd.add("completion-callback-earlier-than-local@%s" % kind)
         for e in world.emits:
             if e.exc is not None:
                 vd.add("producer-saw-exception@%s" % kind)
@@ -232,7 +252,8 @@ def _body(shard, *choices):
         world.close()
 
 
-KINDS = ["map", "map+map", "acc", "acc-start", "acc-rs", "acc-ws", "map+acc", "map+buffer", "partition",
+KINDS = ["map", "map+map", "acc", "acc-start", "acc-rs", "acc-ws", "map+acc", "acc+partition", "acc+window",
+         "acc-ws+partition", "map+buffer", "partition",
          "partition+starmap", "window", "map+window", "zip", "union"]
 
 
